@@ -63,7 +63,7 @@ def exact_set(s, n, P, q, extra=None):
     rhs = z3.And(0 <= i, i < n, sem(q, P(i)))
     if extra is not None:
         rhs = z3.And(rhs, extra(i))
-    return forall([i], z3.Select(s, i) == rhs, patterns=[z3.Select(s, i)])
+    return forall([i], z3.Select(s, i) == rhs, patterns=[z3.Select(s, i), P(i)])
 
 
 def _elig(c, attr):
